@@ -12,7 +12,7 @@
     denotes (checked byte for byte by the tie on every case).  [now] (the timestamp in the file
     names / Liquibase changeset ids) is a parameter.  No proofs here. *)
 From Coq Require Import List NArith ZArith Bool Arith.
-From Atlas Require Import Base.Bytes Lex.LexModel.
+From Atlas Require Import Base.Bytes Lex.LexModel Lex.ClosedModel.
 Import ListNotations.
 
 (** migrate.Change: Cmd, Comment, ReverseStmts() *)
@@ -387,3 +387,15 @@ Definition dir_files (F : format) (names : list bytes) : list bytes :=
   | FFlyway => flyway_files names
   | _ => local_files names
   end.
+
+(** ** the round trip: what the matching reader returns for the up file a formatter writes, and
+    what property C07 requires (the planned commands, as Scanner.emit reports a statement) *)
+Definition roundtrip (F : format) (o : opts) (now : bytes) (p : plan) : option (list bytes) :=
+  texts (read F o (up_content F now p)).
+Definition planned (o : opts) (d : bytes) (p : plan) : option (list bytes) :=
+  Some (map (fun c => stmt_text o d (c_cmd c)) (p_changes p)).
+(** the scanner options / delimiter the matching reader uses *)
+Definition reader_opts (F : format) (o : opts) : opts :=
+  match F with FAtlas | FLiquibase => o | _ => opts_generic end.
+Definition reader_delim (F : format) (p : plan) : bytes :=
+  match F with FAtlas => or_delim (p_delim p) | _ => delimiter end.
